@@ -121,6 +121,10 @@ func getLogoutRequestFromRequest(r *http.Request) (*LogoutRequestForm, error) {
 		Encoding:      r.Form.Get("SAMLEncoding"),
 		RelayState:    r.Form.Get("RelayState"),
 	}
+	// the redirect binding uses the deflate encoding unless stated otherwise, same as for the SSO endpoint
+	if _, ok := r.URL.Query()["SAMLRequest"]; ok && request.Encoding == "" {
+		request.Encoding = xml.EncodingDeflate
+	}
 
 	return request, nil
 }
